@@ -321,3 +321,94 @@ package cose
 //@   ensures fun [C01, C02, C03, C04, C11, C20]: err == nil ==> bytes(result) == old(SigN(bytes(bodyProtected), ProtBytes(s.Headers), external, payload)) && fresh(result)
 //@   ensures err_nil: err != nil ==> result == nil
 //@   modifies frame [C18]: nothing
+
+// ===================================================================
+// shared vocabulary: labels as the properties see them (type-insensitive)
+// ===================================================================
+
+//@ spec isSignedKey(k any) Bool = k is int || k is int8 || k is int16 || k is int32 || k is int64
+//@ spec isUnsignedKey(k any) Bool = k is uint || k is uint8 || k is uint16 || k is uint32 || k is uint64
+//@ spec isIntKey(k any) Bool = isSignedKey(k) || isUnsignedKey(k)
+//@ spec intOf(k any) Int = k is int ? k.(int) : (k is int8 ? k.(int8) : (k is int16 ? k.(int16) : (k is int32 ? k.(int32) : (k is int64 ? k.(int64) :
+//@       (k is uint ? k.(uint) : (k is uint8 ? k.(uint8) : (k is uint16 ? k.(uint16) : (k is uint32 ? k.(uint32) : (k is uint64 ? k.(uint64) : 0)))))))))
+// a label in the supported data model: text, or an integer within int64
+//@ spec labelOK(k any) Bool = k is string || (isIntKey(k) && intOf(k) <= 9223372036854775807)
+// the header map has a parameter with integer label l, however the label is spelt in Go
+//@ spec has(h map[any]any, l Int) Bool = exists k any :: k in h && isIntKey(k) && intOf(k) == l
+// every integer label of h is spelt int64 (what the decoder produces; the exclusion region of findings F3/F4/F7)
+//@ spec int64Labels(h map[any]any) Bool = forall k any :: k in h && isIntKey(k) ==> k is int64
+
+// the value of the alg parameter seen as the properties see it
+//@ spec algIsInt(v any) Bool = v is Algorithm || isSignedKey(v)
+//@ spec algInt(v any) Int = v is Algorithm ? v.(Algorithm) : intOf(v)
+
+// ===================================================================
+// headers.go: algorithm agreement (C04)
+// ===================================================================
+
+//@ func (ProtectedHeader).Algorithm
+//@   ensures absent [C04, C12]: !has(asmap(h), 1) ==> err == ErrAlgorithmNotFound && result == 0
+//@   ensures present [C04, C12]: forall k any :: k in asmap(h) && isIntKey(k) && intOf(k) == 1 ==>
+//@         (algIsInt(asmap(h)[k]) ==> err == nil && result == algInt(asmap(h)[k]))
+//@      && (asmap(h)[k] is string ==> err != nil && Is(err, ErrAlgorithmNotSupported))
+//@      && (!algIsInt(asmap(h)[k]) && !(asmap(h)[k] is string) ==> err == ErrInvalidAlgorithm)
+//@   ensures errs [C04]: err != nil ==> result == 0 && err != ErrAlgorithmMismatch && !Is(err, ErrAlgorithmMismatch)
+//@   modifies frame [C18]: nothing
+
+// alg parameter of a protected bucket, as the properties see it
+//@ spec algPresent(p ProtectedHeader) Bool = has(asmap(p), 1)
+//@ spec algAgrees(p ProtectedHeader, alg Algorithm) Bool = forall k any :: k in asmap(p) && isIntKey(k) && intOf(k) == 1 ==> algIsInt(asmap(p)[k]) && algInt(asmap(p)[k]) == alg
+//@ spec algIntMismatch(p ProtectedHeader, alg Algorithm) Bool = exists k any :: k in asmap(p) && isIntKey(k) && intOf(k) == 1 && algIsInt(asmap(p)[k]) && algInt(asmap(p)[k]) != alg
+
+//@ func (*Headers).ensureVerificationAlgorithm
+//@   requires nonnil: h != nil
+//@   ensures gate [C03, C04]: int64Labels(asmap(h.Protected)) && result == nil ==> algAgrees(h.Protected, alg) && (algPresent(h.Protected) || len(external) > 0)
+//@   ensures mismatch [C04]: int64Labels(asmap(h.Protected)) && algIntMismatch(h.Protected, alg) ==> result != nil && Is(result, ErrAlgorithmMismatch)
+//@   ensures absent [C04]: !algPresent(h.Protected) && len(external) == 0 ==> result == ErrAlgorithmNotFound
+//@   ensures complete [C01, C07]: int64Labels(asmap(h.Protected)) && algAgrees(h.Protected, alg) && (algPresent(h.Protected) || len(external) > 0) ==> result == nil
+//@   modifies frame [C18]: nothing
+
+//@ func (*Headers).ensureSigningAlgorithm
+//@   requires nonnil: h != nil
+//@   ensures gate [C04]: int64Labels(asmap(old(h.Protected))) && result == nil ==> algAgrees(h.Protected, alg) && (algPresent(h.Protected) || len(external) > 0)
+//@   ensures mismatch [C04]: int64Labels(asmap(old(h.Protected))) && old(algIntMismatch(h.Protected, alg)) ==> result != nil && Is(result, ErrAlgorithmMismatch)
+//@   ensures inject [C04]: result == nil && !old(algPresent(h.Protected)) && len(external) == 0 ==> old(h.RawProtected) == nil && int64(1) in asmap(h.Protected) && asmap(h.Protected)[int64(1)] == Algorithm(alg)
+//@   ensures absent_raw [C04]: !old(algPresent(h.Protected)) && len(external) == 0 && old(h.RawProtected) != nil ==> result == ErrAlgorithmNotFound
+//@   ensures unchanged [C04, C18, C20]: int64Labels(asmap(old(h.Protected))) && (result != nil || old(algPresent(h.Protected)) || len(external) > 0) ==> h.Protected == old(h.Protected) && mapdom(asmap(h.Protected)) == old(mapdom(asmap(h.Protected))) && mapval(asmap(h.Protected)) == old(mapval(asmap(h.Protected)))
+//@   ensures raw_kept: h.RawProtected == old(h.RawProtected) && h.RawUnprotected == old(h.RawUnprotected) && h.Unprotected == old(h.Unprotected)
+//@   modifies frame [C18]: h.Protected, mapof(asmap(h.Protected))
+
+// ===================================================================
+// sign1.go: Sign / Verify  (C01, C02, C03, C04, C20)
+//   epoch()  counts Signer.Sign invocations, vepoch() counts Verifier.Verify invocations (ghost)
+// ===================================================================
+
+//@ func (*Sign1Message).Verify
+//@   requires verifier_nonnil: verifier != nil
+//@   ensures once [C03, C04, C20]: vepoch() == old(vepoch()) || vepoch() == old(vepoch()) + 1
+//@   ensures sound [C03, C20]: result == nil ==> m != nil && m.Payload != nil && len(m.Signature) > 0 && vepoch() == old(vepoch()) + 1
+//@   ensures verbatim [C02, C03, C20]: vepoch() == old(vepoch()) + 1 ==> m != nil
+//@         && result == verifier_verify(verifier, old(Sig1(ProtBytes(m.Headers), external, m.Payload)), old(bytes(m.Signature)))
+//@   ensures gate [C04]: m != nil && int64Labels(asmap(m.Headers.Protected)) && vepoch() != old(vepoch())
+//@         ==> algAgrees(m.Headers.Protected, verifier_alg(verifier)) && (algPresent(m.Headers.Protected) || len(external) > 0)
+//@   ensures mismatch [C04]: m != nil && m.Payload != nil && len(m.Signature) > 0 && int64Labels(asmap(m.Headers.Protected)) && algIntMismatch(m.Headers.Protected, verifier_alg(verifier))
+//@         ==> result != nil && Is(result, ErrAlgorithmMismatch)
+//@   ensures precheck [C03]: (m == nil || m.Payload == nil || len(m.Signature) == 0) ==> result != nil && vepoch() == old(vepoch())
+//@   modifies frame [C18]: nothing
+
+//@ func (*Sign1Message).Sign
+//@   requires signer_nonnil: signer != nil
+//@   ensures once [C04, C20]: epoch() == old(epoch()) || epoch() == old(epoch()) + 1
+//@   ensures ok [C01, C02, C20]: err == nil ==> m != nil && epoch() == old(epoch()) + 1 && old(m.Payload) != nil
+//@         && bytes(m.Signature) == signer_sign_bytes(signer, rand, Sig1(ProtBytes(m.Headers), external, m.Payload), old(epoch()))
+//@   ensures verbatim [C02, C20]: epoch() == old(epoch()) + 1 ==> m != nil
+//@         && err == signer_sign_err(signer, rand, Sig1(ProtBytes(m.Headers), external, m.Payload), old(epoch()))
+//@   ensures err_slot [C20]: m != nil && err != nil ==> m.Signature == old(m.Signature)
+//@   ensures payload_kept [C20]: m != nil ==> m.Payload == old(m.Payload) && m.Headers.RawProtected == old(m.Headers.RawProtected)
+//@         && m.Headers.RawUnprotected == old(m.Headers.RawUnprotected) && m.Headers.Unprotected == old(m.Headers.Unprotected)
+//@   ensures gate [C04]: m != nil && int64Labels(asmap(old(m.Headers.Protected))) && epoch() != old(epoch())
+//@         ==> algAgrees(m.Headers.Protected, signer_alg(signer)) && (algPresent(m.Headers.Protected) || len(external) > 0)
+//@   ensures mismatch [C04]: m != nil && old(m.Payload) != nil && old(len(m.Signature)) == 0 && int64Labels(asmap(old(m.Headers.Protected))) && old(algIntMismatch(m.Headers.Protected, signer_alg(signer)))
+//@         ==> err != nil && Is(err, ErrAlgorithmMismatch) && epoch() == old(epoch())
+//@   ensures precheck [C20]: (m == nil || old(m.Payload) == nil || old(len(m.Signature)) > 0) ==> err != nil && epoch() == old(epoch())
+//@   modifies frame [C18]: m.Signature, m.Headers.Protected, mapof(asmap(m.Headers.Protected))
